@@ -49,10 +49,7 @@ func parse(src string) (tree *ast.Tree, panicked bool) {
 	return tree, false
 }
 
-var (
-	nodeType = reflect.TypeOf((*ast.Node)(nil)).Elem()
-	treeType = reflect.TypeOf((*ast.Tree)(nil))
-)
+var treeType = reflect.TypeOf((*ast.Tree)(nil))
 
 // dump renders a node generically: kind = Go type name, v = exported scalar fields in declaration
 // order, c = child fields in declaration order (a slice becomes a "list" node, nil becomes "nil").
